@@ -1,0 +1,56 @@
+//go:build verif
+
+package badger
+
+// Thin test-driver entry points for the /verif correspondence harness (engines "batch",
+// "seq", "mergeop"). They only call production code or read fields.
+
+// VerifWBTxn is the WriteBatch's current internal transaction (the harness compares the
+// pointer before and after an operation to see whether the batch committed and renewed it).
+func VerifWBTxn(wb *WriteBatch) *Txn {
+	wb.Lock()
+	defer wb.Unlock()
+	return wb.txn
+}
+
+// VerifWBFlags: (isManaged, commitTs, finished).
+func VerifWBFlags(wb *WriteBatch) (bool, uint64, bool) {
+	wb.Lock()
+	defer wb.Unlock()
+	return wb.isManaged, wb.commitTs, wb.finished
+}
+
+// VerifWriteBarrier returns once every request sent to the write channel before the call has
+// been applied to the memtable: an empty request travels through sendToWriteCh / doWrites /
+// writeRequests behind them (requests are served strictly in channel order).
+func VerifWriteBarrier(db *DB) error { return db.batchSet(nil) }
+
+// VerifMergeCompact runs one round of the merge operator's background compaction
+// (MergeOperator.compact, what runCompactions does on every tick) and waits until its
+// asynchronous write-back has reached the memtable.
+func VerifMergeCompact(op *MergeOperator) error {
+	if err := op.compact(); err != nil {
+		return err
+	}
+	return op.db.batchSet(nil)
+}
+
+// VerifSeqState: the in-memory lease of a Sequence (next, leased).
+func VerifSeqState(seq *Sequence) (uint64, uint64) {
+	seq.lock.Lock()
+	defer seq.lock.Unlock()
+	return seq.next, seq.leased
+}
+
+// VerifHoldDBLock takes db.lock exclusively and returns the function releasing it. While it is
+// held every Txn.Get (getMemTables) and every memtable write (ensureRoomForWrite) waits, so a
+// controller can keep transactions that have already obtained their read timestamp from
+// finishing, let others begin, and then release all of them.
+func VerifHoldDBLock(db *DB) func() {
+	db.lock.Lock()
+	return db.lock.Unlock
+}
+
+// VerifReadMarkLastIndex: the last index passed to readMark.Begin (the read timestamp of the
+// most recently begun transaction).
+func VerifReadMarkLastIndex(db *DB) uint64 { return db.orc.readMark.LastIndex() }
